@@ -408,6 +408,12 @@ pub fn run(ctx: &Ctx) {
             let (n1, n2) = [(65_537usize, 1usize), (1, 70_000), (131_073, 2), (300, 300), (257, 256), (3, 66_000)][i as usize];
             check_big_molecule(rng.gen::<u64>(), n1, n2, st);
         }
+        // both molecules large (hundreds of particles each; block-wise or tree code would start
+        // here), half of them in spatial order and other units
+        for _ in 0..3 {
+            let (n1, n2) = (rng.gen_range(256, 700), rng.gen_range(256, 700));
+            check_big_molecule(rng.gen::<u64>(), n1, n2, st);
+        }
         for _ in 0..n {
             let c = gen_pair(rng);
             check_pair(&c, st);
